@@ -1,17 +1,22 @@
 #!/usr/bin/env python3
 """Apply one seeded change to /repo, run the named checks against it, undo it.
-usage: tools/seedtest.py <patch.diff> <Cnn> [<Cmm> ...] [--thorough]
+usage: tools/seedtest.py [--repo DIR] <patch.diff> <Cnn> [<Cmm> ...] [--thorough]   (DIR: a scratch worktree; default /repo)
 Prints one JSON line per check: {"id","tier","rc","violation","classes","seconds"}.  /repo is always restored."""
 import json, os, subprocess, sys, time
 ROOT = os.path.dirname(os.path.dirname(os.path.abspath(__file__)))
 def sh(*a, **k): return subprocess.run(a, capture_output=True, text=True, **k)
 def main():
-    args = [a for a in sys.argv[1:] if not a.startswith("--")]
-    thorough = "--thorough" in sys.argv
+    argv = sys.argv[1:]
+    REPO = "/repo"
+    if "--repo" in argv:
+        i = argv.index("--repo"); REPO = os.path.abspath(argv[i + 1]); del argv[i:i + 2]
+    os.environ["IBICUS_REPO"] = REPO
+    args = [a for a in argv if not a.startswith("--")]
+    thorough = "--thorough" in argv
     patch, ids = os.path.abspath(args[0]), args[1:]
-    if sh("git", "-C", "/repo", "status", "--porcelain").stdout.strip():
-        print("refusing: /repo is not clean"); return 2
-    r = sh("git", "-C", "/repo", "apply", patch)
+    if sh("git", "-C", REPO, "status", "--porcelain").stdout.strip():
+        print("refusing: %s is not clean" % REPO); return 2
+    r = sh("git", "-C", REPO, "apply", patch)
     if r.returncode: print("patch does not apply:", r.stderr); return 2
     out = []
     try:
@@ -30,9 +35,9 @@ def main():
                 print(json.dumps(rec)); sys.stdout.flush(); out.append(rec)
                 if r.returncode != 0: break
     finally:
-        sh("git", "-C", "/repo", "apply", "-R", patch)
-        sh("git", "-C", "/repo", "checkout", "--", ".")
-        left = sh("git", "-C", "/repo", "status", "--porcelain").stdout.strip()
+        sh("git", "-C", REPO, "apply", "-R", patch)
+        sh("git", "-C", REPO, "checkout", "--", ".")
+        left = sh("git", "-C", REPO, "status", "--porcelain").stdout.strip()
         if left: print("WARNING: /repo not clean after undo:", left)
     return 0
 sys.exit(main())
